@@ -222,6 +222,27 @@ func c20Mask(c *fw.Ctx) {
 	var bits []maskBit
 	var adds []maskBit
 	unknownContribution := ""
+	// a table of rules (function values held in a list, or in the fields of list entries, and
+	// called while visiting the caveats) decides which bit a caveat earns where the rule cannot see it
+	for _, f := range fw.RegionOf(fn, nil) {
+		for _, call := range fw.Calls(f) {
+			if call.Common().IsInvoke() || call.Common().StaticCallee() != nil {
+				continue
+			}
+			v := call.Common().Value
+			if fld, ok := v.(*ssa.UnOp); ok {
+				if fa, isFA := fld.X.(*ssa.FieldAddr); isFA {
+					v = fa.X // a function-valued field of a table entry
+				}
+			}
+			if fld, ok := v.(*ssa.Field); ok {
+				v = fld.X
+			}
+			if funcFromTable(v, 0) || tableEntry(v, 0) {
+				unknownContribution = ": the caveats are classified by a table of function values (call at " + c.P.Pos(call.Pos()) + ")"
+			}
+		}
+	}
 	collect := func(f *ssa.Function, outer fw.DNF, fr *fw.Frame) {}
 	_ = collect
 	for _, b := range fn.Blocks {
@@ -818,4 +839,43 @@ func andAll(a, b fw.DNF) fw.DNF {
 		}
 	}
 	return out
+}
+
+
+// tableEntry: v is (a pointer to / a copy of) an element of a package-level or local list.
+func tableEntry(v ssa.Value, depth int) bool {
+	if depth > 8 {
+		return false
+	}
+	switch x := v.(type) {
+	case *ssa.UnOp:
+		if _, ok := x.X.(*ssa.Global); ok {
+			return true
+		}
+		return tableEntry(x.X, depth+1)
+	case *ssa.IndexAddr:
+		return true
+	case *ssa.Index:
+		return true
+	case *ssa.Extract:
+		return tableEntry(x.Tuple, depth+1)
+	case *ssa.Next:
+		return true
+	case *ssa.Phi:
+		for _, e := range x.Edges {
+			if tableEntry(e, depth+1) {
+				return true
+			}
+		}
+	case *ssa.Call:
+		// the result of a lookup helper over the table (slices.IndexFunc + index, a find function)
+		return true
+	case *ssa.Alloc:
+		for _, ref := range *x.Referrers() {
+			if st, ok := ref.(*ssa.Store); ok && st.Addr == ssa.Value(x) && tableEntry(st.Val, depth+1) {
+				return true
+			}
+		}
+	}
+	return false
 }
